@@ -292,6 +292,31 @@ def readU16 (f : Bytes) (pos : Nat) : Option Nat × Nat :=
   | [a, b] => (some (a * 256 + b), pos + 2)
   | l => (none, pos + l.length)
 
+/-- second half of `_readHead`: from `self.prLen = self.stream.readAndUnpack(PR_PRH_LEN_FORMAT)[0]` on -/
+def readHeadBody (f : Bytes) (s : Rd) : Except Err Rd :=
+  match readU16 f s.pos with
+  | (none, p) => .ok { s with pos := p, isEOF := true }
+  | (some len, p) =>
+    let s := { s with prLen := len, pos := p }
+    match readU16 f s.pos with
+    | (none, p) => .ok { s with pos := p, isEOF := true }
+    | (some attr, p) =>
+      let s := { s with prAttr := attr, pos := p }
+      if bitSet s.prAttr 14 then .error .physRec else
+      let s := if s.isLrStart then { s with startOfLr := s.startPrPos } else s
+      let s := { s with ldIndex := 0 }
+      let ld : Int := (s.prLen : Int) - 4
+      let ld := if s.hasRecordNumber then ld - 2 else ld
+      let ld := if s.hasFileNumber then ld - 2 else ld
+      match s.hasChecksum with
+      | .error e => .error e
+      | .ok ck =>
+        let ld := if ck then ld - 2 else ld
+        if ld < 0 then .error .physRec else
+        let s := { s with ldLen := ld.toNat, mustReadHead := false }
+        let s := if s.ldTell > 0 then { s with isLrStart := false } else s
+        .ok s
+
 /-- `_readHead` -/
 def readHead (f : Bytes) (s : Rd) : Except Err Rd :=
   let s := if ¬ s.hasSuccessor then { s with ldTell := 0, isLrStart := true } else { s with isLrStart := false }
@@ -299,30 +324,7 @@ def readHead (f : Bytes) (s : Rd) : Except Err Rd :=
   match tifRead f s.tif s.pos with
   | .err => .error .tif
   | .rawEof t p => .ok { s with tif := t, pos := p, isEOF := true }
-  | .ok t p r =>
-    let s := { s with tif := t, pos := p, startPrPos := r.getD s.startPrPos }
-    match readU16 f s.pos with
-    | (none, p) => .ok { s with pos := p, isEOF := true }
-    | (some len, p) =>
-      let s := { s with prLen := len, pos := p }
-      match readU16 f s.pos with
-      | (none, p) => .ok { s with pos := p, isEOF := true }
-      | (some attr, p) =>
-        let s := { s with prAttr := attr, pos := p }
-        if bitSet s.prAttr 14 then .error .physRec else
-        let s := if s.isLrStart then { s with startOfLr := s.startPrPos } else s
-        let s := { s with ldIndex := 0 }
-        let ld : Int := (s.prLen : Int) - 4
-        let ld := if s.hasRecordNumber then ld - 2 else ld
-        let ld := if s.hasFileNumber then ld - 2 else ld
-        match s.hasChecksum with
-        | .error e => .error e
-        | .ok ck =>
-          let ld := if ck then ld - 2 else ld
-          if ld < 0 then .error .physRec else
-          let s := { s with ldLen := ld.toNat, mustReadHead := false }
-          let s := if s.ldTell > 0 then { s with isLrStart := false } else s
-          .ok s
+  | .ok t p r => readHeadBody f { s with tif := t, pos := p, startPrPos := r.getD s.startPrPos }
 
 /-- `_readTail` (pad_modulo = 0: `_consume_padding` does nothing) -/
 def readTail (f : Bytes) (s : Rd) : Except Err Rd :=
